@@ -24,7 +24,10 @@ let event_of_tok (t:string) : event =
   let num () = n_of_int (int_of_string (String.sub t 1 (String.length t - 1))) in
   match t with
   | "DR" -> Dial Refused | "DS" | "DZ" | "DP" -> Dial AcceptedSilent | "DB" -> Dial BadHandshake
-  | "DH" -> Dial HandshakeThenDropped | "DC" -> Dial ClosedNormally | "DE" -> Dial Established
+  | "DH" | "DN" | "DM" | "DK" | "Dk" | "DV" | "DJ" -> Dial HandshakeThenDropped   (* DN DM: the connection breaks during version
+                                                                  negotiation; DK Dk DV DJ: negotiation stalls (the reader keeps
+                                                                  talking / goes silent mid-message) until the device gives up *)
+  | "DC" -> Dial ClosedNormally | "DE" -> Dial Established
   | "X" -> Drop | "T" -> Stop false | "t" -> Stop true
   | "Y" -> StopAtEntry false | "y" -> StopAtEntry true
   | "F" -> SdkFail true | "G" -> SdkFail false
@@ -91,7 +94,10 @@ let run_script up0 toks =
 
 let gen seed count maxdials maxlen =
   Random.init seed;
-  let dial_toks = [| "DR"; "DR"; "DS"; "DB"; "DH"; "DH"; "DC"; "DE"; "DE" |] in
+  let dial_toks = [| "DR"; "DR"; "DS"; "DB"; "DH"; "DH"; "DC"; "DE"; "DE"; "DN"; "DM" |] in
+  (* DN / DM: the connection breaks during negotiation, the onConnect started by the connection event still has its
+     SetReaderConfig to send: like after a poisoned handshake the next connection is kept until that is absorbed *)
+  let stale_tok t = (t = "DN" || t = "DM") in
   let act_toks = [| "X"; "X"; "T"; "t"; "U1"; "U2"; "U0"; "u1"; "u2"; "F"; "G"; "Q"; "Q"; "q"; "Qe"; "Qw"; "Qg"; "Ql" |] in
   for _ = 1 to count do
     let up0 = Random.int 4 <> 0 in
@@ -112,7 +118,7 @@ let gen seed count maxdials maxlen =
       if feasible !s !absorb !spent e && not (is_dial && !nd >= maxdials) then begin
         let was_poisoned = poisoned !s in
         (match e with
-         | Dial o -> incr nd; absorb := (was_poisoned && handshake_ok o); spent := 0
+         | Dial o -> incr nd; absorb := ((was_poisoned && handshake_ok o) || stale_tok t); spent := 0
          | Drop -> spent := 0
          | _ -> spent := !spent + cost !s e);
         s := step !s e; out := t :: !out; incr len
@@ -142,11 +148,18 @@ let gen seed count maxdials maxlen =
 (* all sequences of the six dial outcomes of length 1..n (a Drop after Established when another
    attempt follows), both initial states, made ready for the final Stop like the random ones *)
 let sys n =
-  let outs = [| "DR"; "DS"; "DB"; "DH"; "DC"; "DE" |] in
+  let outs = [| "DR"; "DS"; "DB"; "DH"; "DC"; "DE"; "DN"; "DM" |] in
+  (* a stale onConnect (after DN / DM) gives up after three ended clients and its resetConn then holds clientLock for
+     sendTimeout on a never-connected client: not scripted (two further accepted-and-ended connections after a DN / DM) *)
+  let ends_client t = List.mem t ["DS"; "DB"; "DH"; "DC"; "DN"; "DM"] in
+  let rec hazard = function
+    | [] -> false
+    | t :: rest -> ((t = "DN" || t = "DM") && (match rest with a :: b :: _ -> ends_client a && ends_client b | _ -> false)) || hazard rest in
   let rec seqs k = if k = 0 then [[]] else
       List.concat_map (fun tl -> Array.to_list (Array.map (fun o -> o :: tl) outs)) (seqs (k - 1)) in
   for len = 1 to n do
     List.iter (fun sq ->
+        if not (hazard sq) then
         List.iter (fun up0 ->
             let s = ref (init up0 N0) in
             let out = ref [] in
